@@ -1439,6 +1439,7 @@ def normalize_module(tree: ast.Module, modname: str, log: list[str] | None = Non
     new = [(q, f, c, b) for q, f, c, b in fns if q not in ref]
     # R1: inline new helpers (only those without decorators other than staticmethod/classmethod)
     if new:
+        fn_quals = {q for q, _, _, _ in fns}
         helpers: dict[str, tuple[ast.FunctionDef, bool]] = {}
         for q, f, c, b in new:
             decos = [_dotted(d) for d in f.decorator_list]
@@ -1446,7 +1447,9 @@ def normalize_module(tree: ast.Module, modname: str, log: list[str] | None = Non
                 continue
             if any(isinstance(x, (ast.Yield, ast.YieldFrom, ast.Await)) for x in ast.walk(f)):
                 continue
-            if c is None:
+            if c is None or q.rsplit(".", 1)[0] in fn_quals:
+                # module-level function, or a function nested in another function (a closure: called by its bare name; its free
+                # variables are the enclosing function's, so inlining it there leaves them bound to the same objects)
                 helpers[f.name] = (f, False)
             else:
                 static = "staticmethod" in decos
